@@ -1252,6 +1252,58 @@ theorem encodeV_eq_any_history (vo : Gen.Variant) (text bytes : List Nat) (fuel 
   rw [Thm.C04.enc_history_eq_ref _ (Thm.C04.variant_elaws vo) _ _ _ hist]
   exact ⟨by rw [k1, erefHtml_eq], by rw [k2, anyUnmap_iff]⟩
 
+/-! ### non-vacuity of (e) and (f) (kernel evaluation; admissibility through the executable checkers
+`Lemmas.OneShotCap.decodeAdmissibleB` / `noReplAdmissibleB`, proved sound) -/
+
+section NonVacuity
+
+/-- EUC-KR, `41 FF FF FF FF FF FF`: one validated byte, six malformed bytes.  The first allocation is
+`min(next_power_of_two(1 + 11), 1 + 18) = 16` bytes, 15 of them spare; six U+FFFD need 18. -/
+def demoInput : List Nat := [0x41, 0xFF, 0xFF, 0xFF, 0xFF, 0xFF, 0xFF]
+/-- five inner calls run to their `Malformed`, the sixth finds no room and stops; second round unstopped -/
+def demoPolicy : List (List Budget) := [[.unlimited, .unlimited, .unlimited, .unlimited, .unlimited, .full 0], []]
+
+example : firstCapacity .eucKr 1 6 = some 16 := by decide +kernel
+/-- this policy, with an `OutputFull` round and one `reserve`, is admissible for the computed capacities … -/
+example : DecodeAdmissible .eucKr demoInput 80 [] demoPolicy :=
+  decodeAdmissibleB_sound _ _ _ _ _ (by decide +kernel)
+/-- … the model returns the streaming result (as `decode_without_bom_handling_cap_total` says) … -/
+example : decodeWithoutBomHandlingCap .eucKr demoInput 80 [] demoPolicy
+    = .ok ⟨[0x41, 0xFFFD, 0xFFFD, 0xFFFD, 0xFFFD, 0xFFFD, 0xFFFD], true, false⟩ := by decide +kernel
+/-- … whereas "never stop" is NOT admissible for an exact allocation of 16 bytes (18 would be written
+into 15), and is admissible when the allocator grants 3 bytes more -/
+example : decodeAdmissibleB .eucKr demoInput 80 [] [] = false ∧ decodeAdmissibleB .eucKr demoInput 80 [3] [] = true := by
+  decide +kernel
+
+/-- the without-replacement form, Shift_JIS `41 B1` (half-width katakana): capacity `1 + 3 * 1 = 4`; not
+stopping is admissible and yields U+FF71 (3 bytes into the 3 spare bytes); stopping before the first
+byte (the only way into `unreachable!()`) is not admissible for 3 spare bytes -/
+example : noReplCapacity .shiftJis [0x41, 0xB1] = some 4 := by decide +kernel
+example : NoReplAdmissible .shiftJis [0x41, 0xB1] 0 .unlimited :=
+  (noReplAdmissibleB_iff _ _ _ _).mp (by decide +kernel)
+example : decodeWithoutBomHandlingAndWithoutReplacementCap .shiftJis [0x41, 0xB1] .unlimited
+    = .ok (.ret (some ([0x41, 0xFF71], false))) := by decide +kernel
+example : decodeWithoutBomHandlingAndWithoutReplacementCap .shiftJis [0x41, 0xB1] (.full 0) = .ok .unreachable ∧
+    ¬ NoReplAdmissible .shiftJis [0x41, 0xB1] 0 (.full 0) := by
+  refine ⟨by decide +kernel, fun h => ?_⟩
+  have := (noReplAdmissibleB_iff _ _ _ _).mpr h
+  revert this
+  decide +kernel
+
+/-- `encode`: "Aé" to EUC-KR (unmappable, numeric character reference, owned), to ISO-2022-JP "Aあ"
+(escape sequences, end-of-stream escape), borrows, UTF-16LE encodes as UTF-8 -/
+example : encodeV .eucKr [0x41, 0xC3, 0xA9] 40 [] [] = .ok ⟨[0x41, 0x26, 0x23, 0x32, 0x33, 0x33, 0x3B], true, false⟩ := by
+  decide +kernel
+example : encodeV .iso2022Jp [0x41, 0xE3, 0x81, 0x82] 40 [] []
+    = .ok ⟨[0x41, 0x1B, 0x24, 0x42, 0x24, 0x22, 0x1B, 0x28, 0x42], false, false⟩ := by decide +kernel
+example : encodeV .iso2022Jp [0x41, 0x42] 40 [] [] = .ok ⟨[0x41, 0x42], false, true⟩ := by decide +kernel
+example : encodeV .iso2022Jp [0x41, 0x1B] 40 [] []
+    = .ok ⟨[0x41, 0x26, 0x23, 0x36, 0x35, 0x35, 0x33, 0x33, 0x3B], true, false⟩ := by decide +kernel
+example : OneShot.encode 23 [0x41, 0xC3, 0xA9] 40 [] [] = .ok (⟨[0x41, 0xC3, 0xA9], false, true⟩, Gen.utf8Idx) ∧
+    Meta.nameAt 23 = "UTF-16LE" := by decide +kernel
+
+end NonVacuity
+
 /- Status of the items that were PENDING here:
 
    * `oneshot_no_unreachable`: PROVED at full strength (section (e)), with `without_replacement_total` and
